@@ -227,6 +227,41 @@ def run_C11(repo, tier, seed):
                 break
         if len(samples) < 2:
             samples.append({"zone": zname})
+    # 1b. whole files: rows before and after a change of UTC offset on the same calendar day, converted in ONE call
+    # (a conversion that carries anything over from one row to the next -- a cached offset -- shows here)
+    for zname in zones:
+        tz = pytz.timezone(zname)
+        trans = [t for t in getattr(tz, "_utc_transition_times", []) if 1951 <= t.year <= 2029]
+        rng.shuffle(trans)
+        for t in trans[:(3 if tier == "quick" else 12)]:
+            e0 = int((t - dt.datetime(1970, 1, 1)).total_seconds())
+            texts, instants = [], []
+            for k in range(-6, 9):
+                e = e0 + k * 1800
+                textv = dt.datetime.fromtimestamp(e, pytz.utc).astimezone(tz).strftime("%Y-%m-%d %H:%M:%S")
+                naive = dt.datetime.strptime(textv, "%Y-%m-%d %H:%M:%S")
+                try:
+                    if tz.localize(naive, is_dst=True).utcoffset() != tz.localize(naive, is_dst=False).utcoffset():
+                        continue            # ambiguous wall time (offset going back): outside the property's quantifier
+                except Exception:
+                    continue
+                texts.append(textv)
+                instants.append(e)
+            if len(texts) < 2:
+                continue
+            ev += 1
+            try:
+                rows = list(L.generate_timestamped_rows([[x, "1.0"] for x in texts], tz))
+            except ValueError:
+                continue                    # offsets that are not whole seconds (LMT): refusal is allowed by the code
+            got = [r[0] for r in rows]
+            if got != instants:
+                bad = next(i for i in range(len(texts)) if i >= len(got) or got[i] != instants[i])
+                failures.append({"key": "file-across-offset-change-" + zname,
+                                 "input": {"zone": zname, "texts": texts},
+                                 "observed": "row %d (%r) stored as %r, the instant rendering as that text in %s is %r"
+                                             % (bad, texts[bad], got[bad] if bad < len(got) else None, zname, instants[bad])})
+                break
     # 2. refusals
     step = 1800
     E0 = pipeline.E0
